@@ -28,6 +28,8 @@ pub enum Seg {
   Dir { conv: char, pad: Option<String>, opt: Option<String> },
 }
 
+pub static CLASS_SAMPLE: ClassSample = ClassSample::new();
+
 /// A padded directive whose width is placed relative to the size of the content it renders
 /// (class "padded directives x multi-byte content of every width relation"): the width is
 /// derived from the character count and the UTF-8 length of that content.
@@ -316,6 +318,9 @@ pub fn execute(c: &PatternCase) -> Result<CaseReport, Failure> {
     let kind = if bytes > chars { "multibyte" } else { "ascii" };
     rep.class(format!("pattern/fit/{kind}/{rel}"));
     if bytes > chars && w > chars && w < bytes {
+      if rep.nontrivial {
+        CLASS_SAMPLE.offer(c);
+      }
       rep.class(format!("pattern/fit/multibyte/chars<width<bytes/%{conv}"));
     }
   }
